@@ -1,18 +1,21 @@
 #!/bin/bash
-# usage: tools_seed_eval.sh Cxx [check-id ...]  -- apply seeded/Cxx/patch.diff to /repo, run the named checks (default: Cxx), undo.
-# Writes seeded/Cxx/eval.log. NEVER run while another check is using /repo.
+# usage: tools_seed_eval.sh Cxx [check-id ...]
+# Evaluates a seeded change WITHOUT touching /repo: a scratch worktree of /repo HEAD gets seeded/Cxx/patch.diff applied and is
+# put first on PYTHONPATH; evidence/replays of these runs go to the scratch output directory (VERIF_OUT), not to /verif.
 id=$1; shift; checks=${@:-$id}
+wt=/tmp/mutc/$id; out=/tmp/mutc/$id.out
+mkdir -p /tmp/mutc; git -C /repo worktree remove --force $wt 2>/dev/null; rm -rf $wt $out; mkdir -p $out
+git -C /repo worktree add -q --detach $wt HEAD || exit 2
+git -C $wt apply /verif/seeded/$id/patch.diff || { echo "patch does not apply to /repo HEAD"; git -C /repo worktree remove --force $wt; exit 2; }
 cd /verif
-git -C /repo status --short | grep -q . && { echo "/repo is dirty"; exit 2; }
-git -C /repo apply seeded/$id/patch.diff || { echo "patch does not apply"; exit 2; }
 : > seeded/$id/eval.log
+echo "base=$(git -C /repo rev-parse --short HEAD) verif=$(git -C /verif rev-parse --short HEAD)" >> seeded/$id/eval.log
 for c in $checks; do
   s=$(date +%s)
-  ./vf check $c > /tmp/vt/seed_${id}_$c.log 2>&1; rc=$?
+  PYTHONPATH=$wt VERIF_OUT=$out ./vf check $c > $out/check_$c.log 2>&1; rc=$?
   e=$(date +%s)
-  echo "check=$c exit=$rc wall=$((e-s))s violations=$(grep -c '^VIOLATION' /tmp/vt/seed_${id}_$c.log)" >> seeded/$id/eval.log
-  grep -A1 '^VIOLATION' /tmp/vt/seed_${id}_$c.log | grep -v '^--' | head -6 | cut -c1-300 >> seeded/$id/eval.log
+  echo "check=$c exit=$rc wall=$((e-s))s violations=$(grep -c '^VIOLATION' $out/check_$c.log)" >> seeded/$id/eval.log
+  grep -A1 '^VIOLATION' $out/check_$c.log | grep -v '^--' | head -6 | cut -c1-300 >> seeded/$id/eval.log
 done
-git -C /repo checkout -- .
-rm -rf /verif/replays
+git -C /repo worktree remove --force $wt; rm -rf $wt
 cat seeded/$id/eval.log
